@@ -1,0 +1,12 @@
+//go:build verif
+
+// Contracts for package watcher, read by the verification-condition generator
+// in /verif (govc). Comments only; compiled only with the build tag "verif".
+
+package watcher
+
+// Publication of a newly enabled transaction to the watcher: assumed to have no effect on the client's channel state.
+//@ interface StatesPub
+//@   method Publish
+//@     requires recv != nil
+//@ end
